@@ -434,6 +434,20 @@ func listedPods(r *rand.Rand, marker bool, lvs []api.LevelVersion, n int) []*cor
 			nm = fmt.Sprintf("p-%04d", i)
 		}
 		p := admPod(r, marker, nm, lvs)
+		if r.Intn(100) < 35 {
+			junkMeta(r, p)
+		}
+		switch r.Intn(10) { // lifecycle state is not part of the rule: every existing pod counts
+		case 0:
+			now := metav1.Now()
+			p.DeletionTimestamp = &now
+		case 1:
+			p.Status.Phase = corev1.PodSucceeded
+		case 2:
+			p.Status.Phase = corev1.PodFailed
+		case 3:
+			p.Status.Phase = corev1.PodPending
+		}
 		if r.Intn(100) < 45 {
 			t := r.Intn(100) < 90
 			p.OwnerReferences = []metav1.OwnerReference{{UID: types.UID(pick(r, []string{"u1", "u2", "u3"})), Controller: &t}}
@@ -481,8 +495,9 @@ func namespaceScenario(r *rand.Rand, marker bool) scenario {
 	if r.Intn(100) < 6 {
 		s.Req.Subresource = pick(r, []string{"status", "finalize"})
 	}
-	s.Req.Object = adm.ObjSpec{Kind: "namespace", NSName: nsName, Labels: newLs}
-	s.Req.Old = adm.ObjSpec{Kind: "namespace", NSName: nsName, Labels: oldLs}
+	gen := int64(r.Intn(4))
+	s.Req.Object = adm.ObjSpec{Kind: "namespace", NSName: nsName, Labels: newLs, Generation: gen}
+	s.Req.Old = adm.ObjSpec{Kind: "namespace", NSName: nsName, Labels: oldLs, Generation: gen + int64(r.Intn(2))}
 	kind := "namespace"
 	switch x := r.Intn(100); {
 	case x < 90:
